@@ -94,6 +94,9 @@ def run(prop, tier, seed):
             rep.nontrivial(hashlib.sha1(jkey(rec[1:4]).encode()).hexdigest())
     for rec in r.printed[:: max(1, len(r.printed) // 3)][:3]:
         rep.sample({"channel": "R", "vector": rec})
+    # histories of format / dict calls with dialects and keyword arguments on one class (sys/Mashumaro.tla)
+    from harness.checks import sys_props
+    sys_props.run_into(rep, "C04", tier, seed)
     rep.assumptions += ["the third-party encoders (json, orjson, PyYAML, msgpack, tomli_w/tomllib) are trusted to be lossless on their representable subset",
                         "map keys are restricted to types whose basic form is text (str, date, StrEnum): JSON key stringification is not modelled"]
     return rep.finish({"exhaustive": True,
